@@ -17,7 +17,7 @@ def _two_on_worker(b, opt=False):
 
 
 OBJECTIVES = ["none", "makespan", "flowtime", "priorities", "start_latest", "start_earliest", "greatest_start",
-              "min_expr", "max_expr", "min_bounded", "max_bounded", "cost", "two_min", "two_max", "max_buffer", "min_buffer"]
+              "min_expr", "max_expr", "min_bounded", "max_bounded", "cost", "two_min", "two_max", "two_min_w0", "max_buffer", "min_buffer"]
 
 
 def add_objective(b, name, a, c, w=None):
@@ -59,6 +59,12 @@ def add_objective(b, name, a, c, w=None):
         i = b.ind("IndicatorFromMathExpression", name="E1", expr=start(a))
         j = b.ind("IndicatorFromMathExpression", name="E2", expr=end(c))
         b.obj("ObjectiveMinimizeIndicator", ind=i, kind="minimize", weight=1)
+        b.obj("ObjectiveMinimizeIndicator", ind=j, kind="minimize", weight=2)
+    elif name == "two_min_w0":
+        # a weight of 0 is legal: that objective does not count
+        i = b.ind("IndicatorFromMathExpression", name="E1", expr=sub(const(b.p["H"]), start(a)))
+        j = b.ind("IndicatorFromMathExpression", name="E2", expr=end(c))
+        b.obj("ObjectiveMinimizeIndicator", ind=i, kind="minimize", weight=0)
         b.obj("ObjectiveMinimizeIndicator", ind=j, kind="minimize", weight=2)
     elif name == "two_max":
         i = b.ind("IndicatorFromMathExpression", name="E1", expr=start(a))
@@ -115,7 +121,7 @@ def pool(objectives, shapes=("plain", "optional", "select", "variable", "buffer"
             continue
         if on in ("max_buffer", "min_buffer") and shape != "buffer":
             continue
-        if on in ("two_min", "two_max") and shape == "single":
+        if on in ("two_min", "two_max", "two_min_w0") and shape == "single":
             continue
         add_objective(b, on, a, c, ws)
         ps.append(b.done())
